@@ -10,11 +10,11 @@ GapClasses == {"any", "nl", "stmt"}
 \* insertion kinds of the property: blanks, block comments (also two adjacent, also spanning lines), line break,
 \* line comment (both spellings) at a line end, blank line between statements
 \* blockstars / blockdoc / blockslash: block comments whose text is made of the delimiter characters themselves
-\* ("/**/", "/** d **/", "/*/"): the comment ends at the FIRST "*/" from the opener's own "*" on (Lexer!CommentEnd)
-Kinds == {"space", "tab", "block", "block2", "blockml", "blockstars", "blockdoc", "blockslash", "newline", "linecomment", "hashcomment", "blankline",
+\* ("/**/", "/** d **/", "/*/ x /*/", "/*/ note */"): the comment ends at the first "*/" AFTER its opener (Lexer!CommentEnd)
+Kinds == {"space", "tab", "block", "block2", "blockml", "blockstars", "blockdoc", "blockslash", "blockslash2", "newline", "linecomment", "hashcomment", "blankline",
           "crlf", "crlfcomment"}   \* the line-break kinds once more with a carriage return before the line feed
 Permitted(cls, kind) ==
-  CASE kind \in {"space", "tab", "block", "block2", "blockml", "blockstars", "blockdoc", "blockslash"} -> TRUE
+  CASE kind \in {"space", "tab", "block", "block2", "blockml", "blockstars", "blockdoc", "blockslash", "blockslash2"} -> TRUE
     [] kind \in {"newline", "crlf"} -> cls \in {"nl", "stmt"}
     [] kind \in {"linecomment", "hashcomment", "blankline", "crlfcomment"} -> cls = "stmt"
 Table == [cls \in GapClasses |-> {k \in Kinds : Permitted(cls, k)}]
